@@ -55,7 +55,7 @@ Pick ==
                  g' = [nodes |-> NodeSet, kind |-> kind, pos |-> pos, named |-> named, obs |-> obs, meta |-> meta]
   /\ outs' \in (SUBSET ({U(x) : x \in NodeSet} \cup
                        (IF TwinOutputs THEN {Tw(x) : x \in {y \in NodeSet : Observable(g'.kind[y]) \/ UsesObs(g'.kind[y])}} ELSE {}))) \ {{}}
-  /\ wv' \in (IF WithWV THEN SUBSET {x \in NodeSet : g'.kind[x] # "const"} ELSE {{}})
+  /\ wv' \in (IF WithWV THEN SUBSET NodeSet ELSE {{}})          \* any node can be given, constants included
 
 Next == Pick
 Spec == Init /\ [][Next]_vars
